@@ -278,7 +278,8 @@ def run_exh(case, drv):
 def gen_tree(rng, tier):
     n = rng.randint(2, 6)
     names = gen.node_names(rng, n, rng.choice(["str", "word", "int", "int0", "int0"]))     # column labels may be integers, 0 included
-    ws = rng.sample(range(1, 200), n * (n - 1) // 2)
+    # a user's weight function may be negative on some (or all) pairs; 0 is avoided (an exactly-zero weight means "no edge" to networkx)
+    ws = rng.sample(range(1, 200), n * (n - 1) // 2) if rng.random() < .6 else rng.sample([w for w in range(-150, 100) if w], n * (n - 1) // 2)
     wedges = [[a, b, rs(Fraction(ws.pop(), 64))] for a in range(n) for b in range(a + 1, n)]
     return {"names": names, "n": n, "wedges": wedges, "root": rng.randrange(n), "tan": rng.random() < .3 and n >= 3,
             "cls": rng.randrange(n)}
